@@ -407,6 +407,7 @@ def normalise(F, fn, keep=(), depth=3, _stack=()):
         return fn
     if not _stack:
         resolve_fn_pointers(F, B, fn.crate)
+        fold_const_switch(B)
         thread_try(B)
         thread_bool(B)
         thread_variant(B)
@@ -657,6 +658,11 @@ def thread_variant(B):
                     if rv.get("k") == "agg" and rv.get("agg") == "adt" and rv.get("variant") in val_of:
                         var = rv["variant"]
                         break
+                    cst = rv["a"].get("const") if rv.get("k") == "use" and isinstance(rv.get("a"), dict) else None
+                    if cst is not None and "int" in cst and cst["int"] in val_of.values():
+                        # a field-less enum value written as a constant (`Direction::Later` handed to a helper)
+                        var = next(n_ for n_, v_ in val_of.items() if v_ == cst["int"])
+                        break
                     if rv.get("k") == "use" and place_of(rv["a"]) is not None and not place_of(rv["a"])["p"]:
                         cur = place_of(rv["a"])["l"]
                         continue
@@ -680,3 +686,58 @@ def thread_variant(B):
                 pb["term"] = pt
                 done += 1
     return done
+
+
+def fold_const_switch(B):
+    """A helper that is told what to do by a field-less enum (or bool) argument - `shift(date, amount, Direction::Later)` - and has
+    been put in place: the parameter is a local with one definition, a constant.  The `match direction` on it has one live arm;
+    the switch becomes the jump to it (the other arm stays in the body, unreachable)."""
+    blocks = B.raw["blocks"]
+    defs = {}
+    for b in blocks:
+        for st in b["stmts"]:
+            if st.get("k") == "assign":
+                defs.setdefault(st["place"]["l"], []).append(st if not st["place"]["p"] else None)
+        t = b["term"]
+        if t and t["k"] == "call" and t.get("dest"):
+            defs.setdefault(t["dest"]["l"], []).append(None)
+    nargs = B.raw.get("arg_count", 0)
+
+    def const_of_local(l, depth=0, variants=None):
+        ds = defs.get(l, [])
+        if len(ds) != 1 or ds[0] is None or depth > 6 or 1 <= l <= nargs:
+            return None
+        rv = ds[0]["rv"]
+        if rv.get("k") == "agg" and rv.get("agg") == "adt" and not rv.get("ops") and variants and rv.get("variant") in variants:
+            return variants[rv["variant"]]          # a field-less variant written out (`Direction::Later`)
+        if rv.get("k") != "use":
+            return None
+        c = rv["a"].get("const") if isinstance(rv["a"], dict) else None
+        if c is not None:
+            return c.get("int") if "int" in c else None
+        pl = place_of(rv["a"])
+        if pl is None or pl["p"]:
+            return None
+        return const_of_local(pl["l"], depth + 1, variants)
+    n = 0
+    for b in blocks:
+        sw = b["term"]
+        if not sw or sw["k"] != "switch" or b["cleanup"]:
+            continue
+        d = place_of(sw["discr"])
+        if d is None or d["p"]:
+            continue
+        val = None
+        dst = [st for st in b["stmts"] if st.get("k") == "assign" and st["place"]["l"] == d["l"]]
+        if len(dst) == 1 and dst[0]["rv"].get("k") == "discr" and not dst[0]["rv"]["place"]["p"]:
+            val = const_of_local(dst[0]["rv"]["place"]["l"], 0, {name: v for v, name in (dst[0]["rv"].get("variants") or [])})
+        elif not dst and sw.get("dty") == "bool":
+            val = const_of_local(d["l"])
+        if val is None:
+            continue
+        tmap = dict((v, tb) for v, tb in sw["targets"])
+        side = tmap.get(val, sw.get("otherwise"))
+        if isinstance(side, int):
+            b["term"] = {"k": "goto", "target": side, "loc": sw["loc"], "was_switch": True}
+            n += 1
+    return n
